@@ -621,15 +621,15 @@ theorem parseInline_doc (cfg : Cfg) (d : AcDoc) :
       ∃ inp msg, parseInline cfg fuel c.sid parent oc ns ⟨renderAc d ++ tail, ln, evs⟩ =
         .ok (⟨inp, k, evs'⟩, .err k msg)) ∧
     (∀ evs' ln' oc', specDoc cfg d c ln oc ns evs = (evs', .ok (ln', oc')) →
-      ∃ ns', parseInline cfg fuel c.sid parent oc ns ⟨renderAc d ++ tail, ln, evs⟩ =
-        parseInline cfg (fuel - d.top) c.sid parent oc' ns' ⟨tail, ln', evs'⟩) := by
+      parseInline cfg fuel c.sid parent oc ns ⟨renderAc d ++ tail, ln, evs⟩ =
+        parseInline cfg (fuel - d.top) c.sid parent oc' (nsAfter cfg d c ns) ⟨tail, ln', evs'⟩) := by
   induction d with
   | nil =>
     intro c parent fuel oc ns ln evs tail _ _ _ _
-    simp only [specDoc, renderAc, List.nil_append, AcDoc.top, Nat.sub_zero]
+    simp only [specDoc, nsAfter, renderAc, List.nil_append, AcDoc.top, Nat.sub_zero]
     refine ⟨?_, ?_⟩
     · intro evs' k h; cases h
-    · intro evs' ln' oc' h; cases h; exact ⟨ns, rfl⟩
+    · intro evs' ln' oc' h; cases h; rfl
   | line l rest ih =>
     intro c parent fuel oc ns ln evs tail hok hlink hlev hf
     obtain ⟨hl, hokr⟩ := hok
@@ -654,7 +654,7 @@ theorem parseInline_doc (cfg : Cfg) (d : AcDoc) :
           · exact wsRun_isWs hws c h
           · simp at h; subst h; decide) (by simp) ⟨by simp, by simp⟩
         simpa using this))]
-      simp only [specDoc]
+      simp only [specDoc, nsAfter]
       exact ih c parent f oc ns (ln + 1) evs tail hokr hlink hlev hfr
     | comment ws text =>
       obtain ⟨hws, htext, hlen⟩ := hl
@@ -680,11 +680,11 @@ theorem parseInline_doc (cfg : Cfg) (d : AcDoc) :
       simp only [renderLine]
       rw [parseInline_skip' cfg f c.sid parent oc ns ln evs _ _ hno hnz
         (by simp only [List.length_append, List.length_cons, List.length_nil]; omega) (Or.inr hskip)]
-      simp only [specDoc]
+      simp only [specDoc, nsAfter]
       exact ih c parent f oc ns (ln + 1) evs tail hokr hlink hlev hfr
     | dir args trail =>
       have hd := step_dir cfg c parent hlink f oc ns ln evs args trail (renderAc rest ++ tail) hl
-      simp only [specDoc]
+      simp only [specDoc, nsAfter]
       cases hj : judgeLine cfg c otypeOption ns (args.map (·.2.text)) with
       | reject =>
         rw [hj] at hd
@@ -720,12 +720,12 @@ theorem parseInline_doc (cfg : Cfg) (d : AcDoc) :
       (renderAc body ++ (renderClose cl ++ 10 :: (renderAc rest ++ tail))) hoo
     by_cases hl : c.level = 255
     · obtain ⟨msg, h⟩ := hdeep hl
-      simp only [specDoc, hl, if_true]
+      simp only [specDoc, nsAfter, hl, if_true]
       refine ⟨?_, ?_⟩
       · intro evs' k he; cases he; exact ⟨_, msg, h⟩
       · intro evs' ln' oc' he; cases he
     · have hopen := hopen hl
-      simp only [specDoc, hl, if_false]
+      simp only [specDoc, nsAfter, hl, if_false]
       cases hj : judgeLine cfg c otypeOpen ns o.texts with
       | reject =>
         rw [hj] at hopen
@@ -763,7 +763,8 @@ theorem parseInline_doc (cfg : Cfg) (d : AcDoc) :
           · intro evs' ln' oc' he; cases he
         | ok pr =>
           obtain ⟨ln2, n2⟩ := pr
-          obtain ⟨ns2, h⟩ := hib.2 evs2 ln2 n2 hsb
+          have h := hib.2 evs2 ln2 n2 hsb
+          generalize nsAfter cfg body (c.enter ns1 argv) 0 = ns2 at h
           rw [h]
           have hbt := top_le body
           have hfc : f - body.top = (f - body.top - 1) + 1 := by omega
@@ -820,7 +821,7 @@ theorem parse_nested (cfg : Cfg) (d : AcDoc) (hok : DocOk cfg.ci d) :
     simp [Except.map, Res.toF]
   | ok pr =>
     obtain ⟨ln', oc'⟩ := pr
-    obtain ⟨ns', hp⟩ := h.2 evs' ln' oc' hs
+    have hp := h.2 evs' ln' oc' hs
     rw [hp]
     have hpos : (renderAc d).length + 1 - d.top = ((renderAc d).length - d.top) + 1 := by
       have := top_le d; omega
